@@ -336,6 +336,11 @@ pub fn run(tier: Tier, _replay: Option<String>) -> i32 {
         bytes.truncate(bytes.len() - 8);
         scenarios.push((format!("{:?} mute=false 2 links x 1 HBF, E10+E11 on every RDH, last payload cut by 8 bytes (reader reports E100), batch 2", mode), Scn { mode, mute: false, max_errors: 0, signal: false, cap: 2, input: Arc::new(bytes), scratch: scratch(), toml: false }));
     }
+    // a check combined with a filter and an output destination (the destination is ignored, no writer may take part)
+    {
+        let (_, bytes) = streams::multi_link(2, 2, 0, true, false);
+        scenarios.push(("AllIts with --filter-link 0 and an (ignored) -o file, 2 links x 2 HBFs, E10+E11 on every RDH, batch 2".into(), Scn { mode: Mode::AllItsIgnoredOutput(0), mute: false, max_errors: 0, signal: false, cap: 2, input: Arc::new(bytes), scratch: scratch(), toml: false }));
+    }
     for (label, scn) in &scenarios {
         let cap = if tier.is_thorough() { 400_000 } else { 6_000 };
         let so = explore_scenario(&mut rep, scn, bound, cap, label);
